@@ -233,3 +233,152 @@ CONTRACTS = [
     Contract('lvalue.write', PROPS, ['qbee.qvm_codegen:gen_lvalue_write'], body_write, cases=[(s,) for s in SHAPES]),
     Contract('lvalue.read', PROPS, ['qbee.qvm_codegen:gen_lvalue'], body_read, cases=[(s,) for s in SHAPES]),
 ]
+
+
+# ------------------------------------------------------------------ assignment and argument passing
+
+from spec import qb_expr
+from contracts.c_expr import TYPES as ETYPES
+
+TN = {'INTEGER': Type.INTEGER, 'LONG': Type.LONG, 'SINGLE': Type.SINGLE, 'DOUBLE': Type.DOUBLE, 'STRING': Type.STRING}
+KF_RECORD_ASSIGN = 'KF-C06-record-assignment-crashes'
+
+
+def body_assignment(h, lt, rt):
+    """x = <expr>: the value converted to the variable's type is stored in the variable's cell and nowhere else; a value
+    that does not fit is the run-time Overflow error"""
+    cu = CompilationUnit()
+    r = cu.main_routine
+    r.local_vars['pad'] = Type.LONG
+    r.local_vars['x'] = TN[lt]
+    r.local_vars['after'] = Type.LONG
+    lv = expr.Lvalue('x', [], [])
+    lv.bind(cu)
+    lv._parent_routine = r
+    lv.implicit_decl = None
+    rv = _LvStub(TN[rt])
+    node = object.__new__(stmt.AssignmentStmt)
+    node.lvalue, node.rvalue, node.parent = lv, rv, None
+    code = qvm_codegen.QvmCode()
+    cg = ChildGen(None, [rv])
+    cg.compilation = cu
+    out = h.call(qvm_codegen.gen_assignment, node, code, cg)
+    if not out.returned:
+        h.prove('generator.no_exception', False, detail=repr(out))
+        return
+    F = Seg(h, 'frame', cls=CallFrame, other_type=ETYPES[lt][0], size=3)
+    run = Runner(h, cu, r, F.seg)
+    v = mkcell(h, ETYPES[rt][0], 'value')
+    bad = run.run(code._instrs, [v])
+    conv = h.spec(qb_expr.convert, v.value, rt, lt)
+    if bad is not None:
+        ok = bad.raised(Trapped) and bad.exc.trap_code == TrapCode.INVALID_CELL_VALUE
+        h.prove('only_overflow_can_trap', ok, detail=repr(bad))
+        h.prove('trap_only_if_the_value_does_not_fit', conv[0] != 'ok')
+        return
+    h.prove('value_that_does_not_fit_traps', conv[0] == 'ok')
+    if conv[0] != 'ok':
+        return
+    stack_after(h, run.cpu, 0)
+    F.prove_only_written(h, 'assigning_changes_that_variable_only', [1])
+    c = F.cell(h, 1)
+    h.prove('stored.declared_type', c is not None and c.type == ETYPES[lt][0])
+    h.prove('stored.converted_value', c is not None and same(c.value, conv[1]))
+
+
+def body_record_assignment(h):
+    cu = CompilationUnit()
+    tb = object.__new__(TypeBlock)
+    tb.name = 'rec'
+    tb.fields = {'a': Type.INTEGER, 'b': Type.LONG}
+    cu.user_types['rec'] = tb
+    r = cu.main_routine
+    r.local_vars['p'] = udt('rec')
+    r.local_vars['q'] = udt('rec')
+    lv = expr.Lvalue('p', [], [])
+    rv = expr.Lvalue('q', [], [])
+    for n in (lv, rv):
+        n.bind(cu)
+        n._parent_routine = r
+        n.implicit_decl = None
+    node = object.__new__(stmt.AssignmentStmt)
+    node.lvalue, node.rvalue, node.parent = lv, rv, None
+    # the passes accept p = q for two records of the same type (static.assignment_records) ...
+    code = qvm_codegen.QvmCode()
+    cg = ChildGen(None, [rv])
+    cg.compilation = cu
+    out = h.call(qvm_codegen.gen_assignment, node, code, cg)
+    # ... so the generator must be able to generate it
+    h.prove('accepted_program_can_be_generated', out.returned, detail=repr(out), known=[(KF_RECORD_ASSIGN, True)])
+
+
+def body_args(h, kind, pt, at):
+    """argument passing: a variable is passed as a reference to its own cell; any other expression is evaluated,
+    converted to the parameter's type and passed by value"""
+    cu = CompilationUnit()
+    r = cu.main_routine
+    r.local_vars['pad'] = Type.LONG
+    r.local_vars['x'] = TN[at]
+    if kind == 'variable':
+        arg = expr.Lvalue('x', [], [])
+        arg.bind(cu)
+        arg._parent_routine = r
+        arg.implicit_decl = None
+        kids = []
+    elif kind == 'parenthesised_variable':
+        inner = expr.Lvalue('x', [], [])
+        inner.bind(cu)
+        inner._parent_routine = r
+        arg = object.__new__(expr.ParenthesizedExpr)
+        arg.child, arg.parent = inner, None
+        kids = [arg]
+    else:
+        arg = _LvStub(TN[at])
+        kids = [arg]
+    code = qvm_codegen.QvmCode()
+    cg = ChildGen(None, kids)
+    cg.compilation = cu
+    out = h.call(qvm_codegen.gen_code_for_args, [arg], [TN[pt]], code, cg)
+    if not out.returned:
+        h.prove('generator.no_exception', False, detail=repr(out))
+        return
+    F = Seg(h, 'frame', cls=CallFrame, other_type=ETYPES[at][0], size=2)
+    run = Runner(h, cu, r, F.seg)
+    v = mkcell(h, ETYPES[at][0], 'value')
+    bad = run.run(code._instrs, [v])
+    if kind == 'variable':
+        h.prove('no_exception', bad is None, detail=repr(bad))
+        cells = stack_after(h, run.cpu, 1)
+        if cells:
+            c = cells[0]
+            h.prove('passed_by_reference', c.type == CT.REFERENCE)
+            if c.type == CT.REFERENCE:
+                h.prove('aliases_exactly_the_named_variable', land(c.value.segment is F.seg, c.value.index == 1))
+        F.prove_only_written(h, 'memory_unchanged', [])
+        return
+    conv = h.spec(qb_expr.convert, v.value, at, pt)
+    if bad is not None:
+        ok = bad.raised(Trapped) and bad.exc.trap_code == TrapCode.INVALID_CELL_VALUE
+        h.prove('only_overflow_can_trap', ok, detail=repr(bad))
+        h.prove('trap_only_if_the_value_does_not_fit', conv[0] != 'ok')
+        return
+    h.prove('value_that_does_not_fit_traps', conv[0] == 'ok')
+    if conv[0] != 'ok':
+        return
+    cells = stack_after(h, run.cpu, 1)
+    if cells:
+        h.prove('passed_by_value_not_as_a_reference', cells[0].type != CT.REFERENCE)
+        prove_cell(h, 'value_of_the_parameter_type', cells[0], ETYPES[pt][0], conv[1])
+    F.prove_only_written(h, 'memory_unchanged', [])
+
+
+NUMS = ['INTEGER', 'LONG', 'SINGLE', 'DOUBLE']
+
+CONTRACTS += [
+    Contract('stmt.assignment', PROPS, ['qbee.qvm_codegen:gen_assignment', 'qbee.qvm_codegen:gen_lvalue_write'], body_assignment,
+             cases=[(a, b) for a in NUMS for b in NUMS] + [('STRING', 'STRING')]),
+    Contract('stmt.record_assignment', ['C06', 'C01'], ['qbee.qvm_codegen:gen_assignment'], body_record_assignment),
+    Contract('call.args', PROPS, ['qbee.qvm_codegen:gen_code_for_args', 'qbee.qvm_codegen:gen_lvalue_ref'], body_args,
+             cases=[('variable', t, t) for t in ('INTEGER', 'DOUBLE', 'STRING')] +
+                   [(k, p, a) for k in ('parenthesised_variable', 'expression') for p in ('INTEGER', 'LONG', 'DOUBLE') for a in ('INTEGER', 'DOUBLE')]),
+]
